@@ -309,6 +309,11 @@ class BroydenSolver(NonlinearSolver):
             self.Gm = np.ascontiguousarray(self.Gm.real)
             self.xm = np.ascontiguousarray(self.xm.real)
             self.fxm = np.ascontiguousarray(self.fxm.real)
+            # (the last update vectors of the complex run would otherwise enter the next update of Gm)
+            if self.delta_xm is not None:
+                self.delta_xm = np.ascontiguousarray(self.delta_xm.real)
+            if self.delta_fxm is not None:
+                self.delta_fxm = np.ascontiguousarray(self.delta_fxm.real)
 
         self._converge_failures = 0
         self._computed_jacobians = 0
